@@ -976,11 +976,11 @@ class SQLGenerator:
                         "one_to_many",
                     ):
                         # Other model expects this model to have a foreign key
-                        # For has_many/has_one, foreign_key is the FK column in THIS model
-                        fk = other_join.foreign_key or other_join.sql_expr
-                        if fk not in columns_added:
-                            select_cols.append(f"{fk} AS {self._quote_alias(fk)}")
-                            columns_added.add(fk)
+                        # For has_many/has_one, foreign_key is the FK column(s) in THIS model
+                        for fk in other_join.foreign_key_columns:
+                            if fk not in columns_added:
+                                select_cols.append(f"{fk} AS {self._quote_alias(fk)}")
+                                columns_added.add(fk)
 
             for other_model_name, other_model in self.graph.models.items():
                 if other_model_name not in all_models:
